@@ -685,7 +685,7 @@ def py_set(items, site, wire, nonempty=True):
     return list(items)
 
 
-def py_pdata_prim(d, top=False):
+def py_pdata_prim(d, top=False, nested=False):
     """Plutus data -> the primitives pycardano's encoder writes in the ledger's framing: non-empty sequences as
     IndefiniteList, empty ones as plain lists, byte strings over 64 bytes as ByteString"""
     from cbor2 import CBORTag
@@ -694,18 +694,23 @@ def py_pdata_prim(d, top=False):
     k = d[0]
     seq = lambda xs: se.IndefiniteList(xs) if xs else []      # noqa: E731
     if k == "constr":
-        fields = seq([py_pdata_prim(x) for x in d[2]])
+        fields = seq([py_pdata_prim(x, nested=True) for x in d[2]])
         t = P.constr_tag(d[1])
         return CBORTag(t, fields) if t is not None else CBORTag(102, [d[1], fields])
     if k == "list":
-        return seq([py_pdata_prim(x) for x in d[1]])
+        return seq([py_pdata_prim(x, nested=True) for x in d[1]])
     if k == "map":
-        return {py_pdata_prim(a): py_pdata_prim(b) for a, b in d[1]}
+        return {py_pdata_prim(a, nested=True): py_pdata_prim(b, nested=True) for a, b in d[1]}
     if k == "int":
         if abs(d[1]) >= 1 << 512:
             raise Inexpressible("plutus integer with a bignum payload over 64 bytes (cbor2 writes it unchunked; C18 finding)")
         return d[1]
-    return se.ByteString(d[1]) if len(d[1]) > 64 else d[1]
+    # a byte string of up to 64 bytes may be held either as plain `bytes` or in the `ByteString` wrapper (which is what
+    # RawPlutusData.from_json / from_dict produce for anything over 32 bytes): same content, same prescribed bytes.  Nested
+    # strings of 33..64 bytes take the wrapper in about half of the cases (a function of the content, so a case replays)
+    if len(d[1]) > 64 or (nested and len(d[1]) > 32 and sum(d[1]) % 2 == 0):
+        return se.ByteString(d[1])
+    return d[1]
 
 
 def py_datum(d):
@@ -777,6 +782,13 @@ def py_output(o, wire, key):
     # an inline datum or a reference script implies the map form whatever the flag says: half of those outputs are
     # constructed with the flag left at its default (False), the bytes must be the same
     flag = form == "map" and not (("datum" in kw or "script" in kw) and int(o["value"]["coin"]) % 2 == 0)
+    if kw and int(o["value"]["coin"]) % 3 == 0:
+        # construction history: the output is created bare and its datum hash / inline datum / reference script are ASSIGNED
+        # afterwards (the flag is only raised by the constructor): the content is the same, so are the prescribed bytes
+        out = pc.TransactionOutput(pc.Address.from_primitive(o["addr"]), py_value(o["value"]), post_alonzo=flag)
+        for k, v in kw.items():
+            setattr(out, k, v)
+        return out
     return pc.TransactionOutput(pc.Address.from_primitive(o["addr"]), py_value(o["value"]), post_alonzo=flag, **kw)
 
 
